@@ -65,6 +65,13 @@ pub fn exec_runner_p(start: Vec<ATerm>, rules: Vec<usize>, iter_limit: usize, no
             let _ = Slot::named(nm);
         }
         let mut tags: Vec<String> = Vec::new();
+        // a fifth of the runs (a function of the case description): a time limit of zero — every limit check finds it exceeded
+        // (`Runner`: elapsed > 0; `run_eqsat`: elapsed seconds >= 0), so the run must stop with `TimeLimit` unless an earlier
+        // reason in the documented order applies
+        let zero_time = desc2.bytes().fold(7u64, |h, b| h.wrapping_mul(131).wrapping_add(b as u64)) % 5 == 0;
+        if zero_time {
+            tags.push("t:zero-time-limit".into());
+        }
         let rws: Vec<Rewrite<Main>> = rules.iter().map(|i| mk_rule(rule_at(*i))).collect();
         // half of the runs: the same rule objects were used on another e-graph (the same start terms) before
         if desc2.bytes().fold(0u64, |h, b| h.wrapping_mul(31).wrapping_add(b as u64)) % 2 == 1 {
@@ -88,7 +95,7 @@ pub fn exec_runner_p(start: Vec<ATerm>, rules: Vec<usize>, iter_limit: usize, no
             initial = IterRec { measure: meas(&g), nodes: g.total_number_of_nodes(), events: 0, fingerprint: fingerprint(&g, &tracked.borrow()), post: None };
             let (recs2, tr2) = (recs.clone(), tracked.clone());
             let mut k = 0usize;
-            let rep = run_eqsat(&mut g, rws, iter_limit, 100000, move |eg: &mut EGraph<Main>| {
+            let rep = run_eqsat(&mut g, rws, iter_limit, if zero_time { 0 } else { 100000 }, move |eg: &mut EGraph<Main>| {
                 let evs = slotted_egraphs::verif::take_events().len();
                 recs2.borrow_mut().push(IterRec { measure: meas(eg), nodes: eg.total_number_of_nodes(), events: evs, fingerprint: fingerprint(eg, &tr2.borrow()), post: None });
                 let this = k;
@@ -107,6 +114,9 @@ pub fn exec_runner_p(start: Vec<ATerm>, rules: Vec<usize>, iter_limit: usize, no
             eg = g;
         } else {
             let mut runner: Runner<Main, (), (), String> = Runner::new(()).with_iter_limit(iter_limit).with_node_limit(node_limit);
+            if zero_time {
+                runner = runner.with_time_limit(std::time::Duration::ZERO);
+            }
             for t in &start {
                 runner = runner.with_expr(&to_recexpr::<Main>(t));
             }
@@ -178,7 +188,7 @@ pub fn exec_runner_p(start: Vec<ATerm>, rules: Vec<usize>, iter_limit: usize, no
             let h = if Some(k) == fail_at { "1" } else { "-" };
             // the limit check runs after the hooks
             let nodes_at_check = rec.post.as_ref().map(|p| p.1).unwrap_or(rec.nodes);
-            obs.push(format!("p{},h{h},n{},t0", if progress { 1 } else { 0 }, nodes_at_check));
+            obs.push(format!("p{},h{h},n{},t{}", if progress { 1 } else { 0 }, nodes_at_check, if zero_time { 1 } else { 0 }));
             prev = rec.clone();
         }
         if stop == "Saturated" {
